@@ -59,6 +59,10 @@ class C05(SessionCheck):
         for i, shape in enumerate(['banner', 'prefixes', 'pi', 'banner']):
             out.append({'kind': 'connect', 'sc': {'transport': ['unix', 'ssh', 'tls', 'unix'][i] if tier == 'thorough' else 'unix', 'profile': ['default', 'nexus', 'default', 'junos'][i],
                                                   'extras': [], 'server11': i % 2 == 0, 'hello_shape': shape}})
+        # two sessions of one process whose servers send the SAME hello; the application edits the first session's view of the server
+        # capabilities (the documented add / remove) before the second one connects: the second reports ITS server's hello
+        for i in range(2 if tier == 'quick' else 8):
+            out.append({'kind': 'twosess', 'server11': i % 2 == 0, 'edit': [['remove-b11', 'add'], ['add'], ['remove-all']][i % 3]})
         # arrival timing of the server's <hello> over a real SSH transport: never sent, sent in pieces that complete well inside the
         # timeout, and dripped for ever without its end (connect must fail within the timeout, not hang)
         # the <hello> document itself, for every profile: HelloHandler.build vs the model's serialize (helloTree), read back by an
@@ -135,7 +139,52 @@ class C05(SessionCheck):
         case['_caps'], case['_pfx'] = caps, ('nc:' if body.startswith('<nc:') else '')      # inputs of the model line for this case
         return {'caps': caps, 'ser': body, 'read': read, 'root': root.tag}
 
+    def run_twosess(self, case):
+        from impl import fakeserver as FS
+        from ncclient import manager
+        from ncclient.xml_ import new_ele
+        import time
+        caps = [c for c in FS.STD_CAPS if case['server11'] or c != B11]
+        s1, s2 = FS.UnixServer(caps=list(caps)), FS.UnixServer(caps=list(caps))
+        m1 = m2 = None
+        try:
+            m1 = manager.connect_uds(path=s1.path, timeout=5)
+            sc = m1.server_capabilities
+            for e in case['edit']:
+                if e == 'add':
+                    sc.add('urn:example:added-by-the-application:1.0')
+                elif e == 'remove-b11':
+                    sc.remove(B11)
+                else:
+                    for u in list(sc):
+                        sc.remove(u)
+            m2 = manager.connect_uds(path=s2.path, timeout=5)
+            res = {'caps2': list(m2.server_capabilities), 'sent': caps, 'sid2': m2.session_id}
+            m2.async_mode = True
+            m2.dispatch(new_ele('get'))
+            t0 = time.time()
+            while len(s2.requests) < 1 and time.time() - t0 < 3:
+                time.sleep(0.01)
+            rx = bytes(s2.rx)
+            i = rx.find(b']]>]]>')
+            res['second_frame_chunked'] = (rx[i + 6:i + 8] == b'\n#') if i >= 0 else None
+            res['n_requests'] = len(s2.requests)
+            return res
+        except Exception as e:
+            return {'exc': type(e).__name__ + ': ' + str(e)[:80]}
+        finally:
+            for m in (m1, m2):
+                try:
+                    if m is not None:
+                        m._session.close()
+                except Exception:
+                    pass
+            s1.cleanup()
+            s2.cleanup()
+
     def run_impl(self, case):
+        if case.get('kind') == 'twosess':
+            return self.run_twosess(case)
         if case.get('kind') == 'hello-doc':
             return self.run_hello_doc(case)
         if case.get('kind') == 'hello-timing':
@@ -193,7 +242,7 @@ class C05(SessionCheck):
             if '_caps' not in case or any(c == '' for c in case['_caps']):
                 return []
             return ['xd hello %s %s' % (hexs(case['_pfx']), hlist(hexs(c) for c in case['_caps']))]
-        if case.get('kind') in ('connect', 'hello-timing'):
+        if case.get('kind') in ('connect', 'hello-timing', 'twosess'):
             return []
         return SessionCheck.model_lines(self, case)
 
@@ -202,7 +251,7 @@ class C05(SessionCheck):
             t = outs[0].split(' ')
             from core import unhlist
             return {'ser': unhexs(t[0]), 'read': None if t[1] == 'none' else [None if x == '-' else unhexs(x) for x in unhlist(t[1])]}
-        if case.get('kind') in ('connect', 'hello-timing'):
+        if case.get('kind') in ('connect', 'hello-timing', 'twosess'):
             return None
         return SessionCheck.model_obs(self, case, outs)
 
@@ -215,12 +264,12 @@ class C05(SessionCheck):
             if io['read'] != mo['read']:
                 return 'capabilities read back differ: expat %r, model %r' % (io['read'], mo['read'])
             return None
-        if case.get('kind') in ('connect', 'hello-timing'):
+        if case.get('kind') in ('connect', 'hello-timing', 'twosess'):
             return None
         return SessionCheck.compare(self, case, io, mo)
 
     def nontrivial(self, case, io):
-        if case.get('kind') in ('hello-timing', 'hello-doc'):
+        if case.get('kind') in ('hello-timing', 'hello-doc', 'twosess'):
             return True
         if case.get('kind') == 'connect':
             return io.get('connect') == 'ok'
@@ -269,6 +318,15 @@ class C05(SessionCheck):
             prof = next((p for p in getattr(self, '_profiles', []) if p['name'] == case['profile']), None)
             if (prof is None or prof['uses']) and not all(x in io['caps'] for x in case['extras']):
                 return ('C05:user-capabilities', '%s: user additions %r missing from %r' % (case['profile'], case['extras'], io['caps']))
+            return None
+        if case.get('kind') == 'twosess':
+            if 'exc' in io:
+                return ('C05:e2e-connect', 'two sessions with the same server hello: %s' % io['exc'])
+            if io['caps2'] != io['sent'] or str(io['sid2']) != '4711':
+                return ('C05:server-capabilities-of-another-session', 'after the application edited the first session\'s server capabilities (%s), a second session whose server sent the same '
+                        'hello reports %s; its server sent %s' % (case['edit'], [c for c in io['caps2'] if c not in io['sent']] + ['(missing) ' + c for c in io['sent'] if c not in io['caps2']], len(io['sent'])))
+            if io['second_frame_chunked'] is not None and io['second_frame_chunked'] != case['server11']:
+                return ('C05:framing-after-hello', 'second session: server advertised base:1.1=%s, the first request was %s' % (case['server11'], 'chunked' if io['second_frame_chunked'] else 'end-of-message framed'))
             return None
         if case.get('kind') == 'hello-timing':
             sc = case['sc']
